@@ -73,7 +73,10 @@ func (s *PFCPSession) CreatePDR(p pdr) {
 func (s *PFCPSession) UpdatePDR(p pdr) error {
 	for idx, v := range s.pdrs {
 		if v.pdrID == p.pdrID {
+			// the counter cell belongs to the installed rule, not to the request
+			p.ctrID = v.ctrID
 			s.pdrs[idx] = p
+
 			return nil
 		}
 	}
